@@ -55,6 +55,8 @@ Obs == [
   CD         |-> Ob(<<0, 0, 0>>, "scalar", "total"),
   CM         |-> Ob(<<0, 0, 0>>, "axial",  "total"),
   M          |-> Ob(<<1, 2, 3>>, "axial",  "total"),
+  tL         |-> Ob(<<1, 2, 2>>, "scalar", "total"),      \* aircraft lift and drag (q S_ref_total CL, q S_ref_total CD)
+  tD         |-> Ob(<<1, 2, 2>>, "scalar", "total"),
   S_ref      |-> Ob(<<0, 0, 2>>, "scalar", "surface"),
   sCL        |-> Ob(<<0, 0, 0>>, "scalar", "surface"),
   sCD        |-> Ob(<<0, 0, 0>>, "scalar", "surface"),
@@ -193,6 +195,7 @@ CoefficientsInvariant == \A o \in ObsNames : Obs[o].dim = <<0, 0, 0>> => Factor(
 DefiningIdentities ==
    /\ Obs["L"].dim = Add3(Add3(Obs["q"].dim, Obs["S_ref"].dim), Obs["sCL"].dim)          \* L = q S CL
    /\ Obs["D"].dim = Add3(Add3(Obs["q"].dim, Obs["S_ref"].dim), Obs["sCD"].dim)
+   /\ Obs["tL"].dim = Obs["L"].dim /\ Obs["tD"].dim = Obs["D"].dim                             \* aircraft totals = sums of the surfaces'
    /\ Obs["sec_forces"].dim = Obs["L"].dim                                                  \* L, D are components of the summed panel forces
    /\ Obs["CM"].dim = Sub3(Sub3(Sub3(Obs["M"].dim, Obs["q"].dim), Obs["S_ref"].dim), Obs["MAC"].dim)   \* CM = M / (q S MAC)
    /\ Obs["M"].dim = Add3(Obs["sec_forces"].dim, <<0, 0, 1>>)                               \* M = sum r x F
